@@ -24,8 +24,17 @@ TRUSTED = ['hand-written model of the tree edits (lean/TexSoupModel/Edit.lean), 
            'the span computation of the oracle (lib_edit.locate / ins_point: sums of len(str(.)) of what precedes the '
            'target structurally) = offAtRoot / insOffRoot of the proofs by inspection']
 ASSUMPTIONS = ['the model driver is the compiled form of the verified definitions',
-               'every edit starts from a deep copy of the freshly parsed tree (copy.deepcopy of soup.expr; same canonical '
-               'tree) and new material is a deep copy of a node parsed elsewhere, so that no object occurs twice',
+               'every single edit starts from a deep copy of the freshly parsed tree (copy.deepcopy of soup.expr; same '
+               'canonical tree) and its new material is a deep copy of a node parsed at the top level of a snippet, so that '
+               'no object occurs twice',
+               'transplant histories add the very object that navigation gives: a node taken from inside an argument / brace '
+               'group / \\item body of a separately parsed snippet document (shared with that snippet, which must stay as it '
+               'was), or a .copy() of a node of the document itself (shared with its old place). A copy is only added where '
+               'the library is well-defined: under a parent node that does not already hold the object in one of its own '
+               'content lists (the lookup is by identity among the holders of the parent) and not into itself; while an '
+               'object occurs twice, steps that edit inside it are not generated (they would change both places; '
+               'excluded, counted as aliased_inner_edit if met), and a step that edits inside material shared with a '
+               'snippet legitimately changes that snippet (counted as source_inner_edit)',
                'a container is a node whose contents may be edited: every node but a command other than \\item, for which '
                'insert/append raise TypeError (documented) and must leave the document as it is',
                'insertion indices count the elements of the stored content list (whitespace-only text included), '
@@ -47,6 +56,11 @@ FIXED = ['\\x y\\x z',
          '\\begin{verbatim}\\x\\end{verbatim}\\x']
 
 REP_SIZES = (1, 2, 3)
+TRANSPLANT_DOCS = ['\\section{A \\emph{hi} B}\\begin{quote}text \\emph{hi}\\end{quote}',
+                   '\\begin{itemize}\\item a \\x b\\item \\x\\end{itemize}$x \\x$ {\\x}\\x',
+                   '\\section{Intro}\\begin{quote}text\\end{quote}', '{{g} \\x}{g}\\[\\x\\]',
+                   '\\begin{a}{c \\x}\\x\\end{a}\\x', '\\textbf{\\x}\\x']
+
 KEY = {'del': 'delete-not-local', 'rem': 'remove-not-local', 'rep': 'replace-not-local',
        'ins': 'insert-not-local', 'app': 'insert-not-local'}
 
@@ -72,6 +86,19 @@ def documents(rng, n, corpus_max=0):
             continue
         out.append(d)
     return out
+
+
+def transplant_rule(cap):
+    return ('Transplant histories (several ops; new material kinds i: = a node taken from inside a separately parsed '
+            'snippet, c: = a .copy() of a node of the document itself): on %d hand-written documents, for %s '
+            'container(s), each of the %d snippet nodes of lib_edit.INNER_MATS (parsed inside a command argument, a '
+            'bracket argument, a brace group, a group in a group, an \\item body) and up to 3 well-defined .copy()s of '
+            'nodes of the document are appended (alone / behind a fresh textual twin) or inserted at 0, then that very '
+            'node is deleted (node.delete(), parent.remove(node)) or replaced (replace_with, parent.replace) at its new '
+            'place; plus random histories on every document (lib_edit.gen_transplant: 0..2 ordinary steps, the adding '
+            'step - append mostly, insert, replace, often next to a textual twin -, 1..3 later steps mostly aimed at the '
+            'added node). After every step the snippet document the material came from must be unchanged.'
+            % (len(TRANSPLANT_DOCS), 'every' if cap is None else 'up to %d sampled' % cap, len(L.INNER_MATS)))
 
 
 def _mats(rng, size, twin=None):
@@ -137,6 +164,23 @@ def single_edits(base, rng, cap=None):
     return out
 
 
+def transplants(doc, rng, cap, exhaustive=False):
+    """[(ops, variant)]: histories that add a node taken from inside a snippet (or a .copy() of a
+    node of the document) and then delete / replace that node at its new place: the enumerated
+    pairs of lib_edit.transplant_pairs (for `exhaustive` documents) and random longer ones
+    (lib_edit.gen_transplant)."""
+    out = []
+    if exhaustive:
+        out += L.transplant_pairs(doc, rng, cap)
+    for _ in range(4 if exhaustive else 2):
+        out.append((L.gen_transplant(rng, doc), None))
+    return out
+
+
+def _is_hist(inp):
+    return bool(inp.get('hist')) or len(inp.get('ops', [])) > 1
+
+
 # ------------------------------------------------------------------------------------ correspondence
 
 def _unit_docs(docs, rng):
@@ -148,18 +192,29 @@ def _unit_docs(docs, rng):
 
 
 def _corr_unit(unit):
-    docs, seed, cap = unit
+    docs, seed, cap = unit[:3]
+    exhaustive = len(unit) > 3 and unit[3]
     T = common.impl()
     rng = random.Random(seed)
     docs = _unit_docs(docs, rng)
-    cases, reqs = [], []
+    cases, reqs, hists = [], [], []
     for doc in docs:
         base = T.TexSoup(doc)
         for kind, op, variant, nt in single_edits(base, rng, cap):
             cases.append((doc, base, kind, op, variant, nt))
             reqs.append(L.edit_req(doc, [op]))
-    model = _util.model(reqs)
+        for ops, variant in transplants(doc, rng, cap, exhaustive):
+            hists.append((doc, ops, variant))
+    model = _util.model(reqs + [L.edit_req(doc, ops) for doc, ops, _ in hists])
     n, hashes, fails, kinds = 0, [], [], {'documents': len(docs)}
+    for (doc, ops, variant), m in zip(hists, model[len(cases):]):
+        a = L.impl_edit(doc, ops, variant=variant)
+        n += 1
+        kinds['transplant'] = kinds.get('transplant', 0) + 1
+        hashes.append(_crc(doc, ';'.join(ops), variant))
+        if a != m and len(fails) < 3:
+            fails.append({'key': 'model-mismatch-transplant', 'what': L.explain(doc, ops)[:700],
+                          'input': {'doc': doc, 'ops': ops, 'variant': variant, 'hist': True}})
     for (doc, base, kind, op, variant, nt), m in zip(cases, model):
         a = L.impl_edit(doc, [op], soup=L.clone(base), variant=variant)
         n += 1
@@ -197,6 +252,7 @@ def correspondence(ctx):
     rng = ctx.rng('corr')
     cap = ctx.pick(8, None)
     units = _units(documents(rng, 0), rng, cap, per=2) + _units(ctx.pick(400, 2000), rng, cap)
+    units += [u + (True,) for u in _units(TRANSPLANT_DOCS, rng, ctx.pick(4, None), per=1)]
     _collect(r, _util.pmap(_corr_unit, units))
     op = 'del b2'
     r.sample({'request': L.edit_req(FIXED[0], [op]), 'impl': L.impl_edit(FIXED[0], [op])})
@@ -206,9 +262,9 @@ def correspondence(ctx):
               'node.replace_with(..) and parent.replace(node, ..) with 1..3 new nodes/strings (one of them often a fresh '
               'copy of the target itself), every index 0..len+1 of %s container(s) for insert, append; refused edits '
               '(insertion into a plain command) must be refused by the model too; non-trivial = the target (container) has '
-              'a textual twin elsewhere in the document, or the insertion index is interior'
+              'a textual twin elsewhere in the document, or the insertion index is interior. '
               % (len(FIXED), 'every' if cap is None else 'up to %d sampled' % cap,
-                 'every' if cap is None else 'up to %d sampled' % cap))
+                 'every' if cap is None else 'up to %d sampled' % cap)) + transplant_rule(ctx.pick(4, None))
     r.exhaustive = cap is None
     return r
 
@@ -270,21 +326,66 @@ def op_text(kind, op, variant):
     w = op.split(' ')
     mats = []
     if kind in ('rep', 'ins', 'app'):
-        for m in w[-1].split(','):
-            mats.append(repr(dec(m[2:])) if m[0] == 's' else 'node(%s)' % dec(m[2:]))
+        for m in ([] if w[-1] == '_' else w[-1].split(',')):
+            mats.append(L.mat_show(m))
     call = {'del': 'node.delete()', 'rem': 'node.parent.remove(node)',
             'rep': ('node.replace_with(%s)' if variant else 'node.parent.replace(node, %s)') % ', '.join(mats),
             'ins': 'node.insert(%s)' % ', '.join(w[2:3] + mats), 'app': 'node.append(%s)' % ', '.join(mats)}[kind]
     return '%s with node at %s' % (call, w[1])
 
 
+def run_hist(doc, ops, variant=None, stats=None):
+    """A transplant history on the implementation alone (lib_edit.run_transplant): every step must be the
+    splice of the targeted place, the snippet documents stay as they were.  None or (key, what, step)."""
+    return L.run_transplant(doc, ops, variant, stats)
+
+
+def shrink_hist(doc, ops, variant, key):
+    """Cut after the failing step, then drop single earlier ops while the same key fails."""
+    x = run_hist(doc, ops, variant)
+    if not x:
+        return ops
+    if x[2] < len(ops) - 1:
+        ops, variant = ops[:x[2] + 1], None
+    changed = True
+    while changed:
+        changed = False
+        for k in range(len(ops) - 1):
+            cand = ops[:k] + ops[k + 1:]
+            try:
+                y = run_hist(doc, cand, variant)
+            except Exception:
+                y = None
+            if y and y[0] == key and y[2] == len(cand) - 1:
+                ops, changed = cand, True
+                break
+    return ops
+
+
 def _oracle_unit(unit):
-    docs, seed, cap = unit
+    docs, seed, cap = unit[:3]
+    exhaustive = len(unit) > 3 and unit[3]
+    given = unit[4] if len(unit) > 4 else None
     T = common.impl()
     rng = random.Random(seed)
     docs = _unit_docs(docs, rng)
     n, hashes, fails, stats = 0, [], [], {'documents': len(docs)}
+    tstats = {}
     for doc in docs:
+        hists = transplants(doc, rng, cap, exhaustive) if given is None else given
+        for ops, variant in hists:
+            x = run_hist(doc, ops, variant, tstats)
+            n += 1
+            stats['transplant'] = stats.get('transplant', 0) + 1
+            hashes.append(_crc(doc, ';'.join(ops), variant))
+            if x is not None and len(fails) < 5:
+                fails.append({'key': x[0], 'what': x[1],
+                              'input': {'doc': doc, 'ops': ops, 'variant': variant, 'hist': True}})
+    for k, v in tstats.items():
+        stats['transplant_' + k] = stats.get('transplant_' + k, 0) + v
+    for doc in docs:
+        if given is not None:
+            break
         base = T.TexSoup(doc)
         before = str(base)
         for kind, op, variant, nt in single_edits(base, rng, cap):
@@ -324,11 +425,25 @@ def oracle(ctx, seeds, scale):
             seed_docs.append(s['doc'])
     cap = ctx.pick(10, None)
     units = _units(seed_docs[:60], rng, None, per=1)
+    for s0 in [x for x in seeds if isinstance(x, dict) and isinstance(x.get('doc'), str) and _is_hist(x)][:40]:
+        units.append(([s0['doc']], rng.getrandbits(32), None, False, [(list(s0['ops']), s0.get('variant'))]))
+    units += [u + (True,) for u in _units(TRANSPLANT_DOCS, rng, ctx.pick(4, None), per=1)]
     units += _units(documents(rng, 0, corpus_max=ctx.pick(300, 1500)), rng, cap, per=2)
     units += _units(ctx.pick(700, 4000) * scale, rng, cap)
     _collect_oracle(r, _util.pmap(_oracle_unit, units))
-    # failures sorted so that the smallest document is reported first
-    r.failures.sort(key=lambda f: len(f['input']['doc']))
+    for f in [f for f in r.failures if _is_hist(f['input'])][:6]:
+        try:
+            inp = f['input']
+            ops = shrink_hist(inp['doc'], inp['ops'], inp.get('variant'), f['key'])
+            v = inp.get('variant') if len(ops) == len(inp['ops']) else None
+            x = run_hist(inp['doc'], ops, v)
+            if x and x[0] == f['key']:
+                f['input'] = {'doc': inp['doc'], 'ops': ops, 'variant': v, 'hist': True}
+                f['what'] = x[1]
+        except Exception:                           # noqa: keep the unshrunk history
+            pass
+    # failures sorted so that the smallest history on the smallest document is reported first
+    r.failures.sort(key=lambda f: (len(f['input']['ops']), len(f['input']['doc'])))
     r.sample({'doc': FIXED[0], 'edit': 'node.delete() with node at b2 (the second \\x, span [4:6])',
               'expected': '\\x y z', 'got': _demo()})
     r.rule = ('for every edit: k, n = offset and length of the target in str(soup) BEFORE the edit, from the lengths of the '
@@ -338,8 +453,11 @@ def oracle(ctx, seeds, scale):
               'insert at index i / append: n = 0 and k = offset of the i-th stored body element / of the end of the body). '
               'An edit that raises must leave str(soup) as it was, and may raise only for a holder/container that is a '
               'command other than \\item. Documents: hand-written twin documents, lib_edit.gen_doc, short repository '
-              'documents; %s; non-trivial = the target (container) has a textual twin elsewhere, or interior index'
-              % ('every target, every index' if cap is None else 'up to %d sampled targets and containers per document' % cap))
+              'documents; %s; non-trivial = the target (container) has a textual twin elsewhere, or interior index. '
+              % ('every target, every index' if cap is None else 'up to %d sampled targets and containers per document' % cap)
+              ) + transplant_rule(ctx.pick(4, None)) + (
+              ' Each step of such a history is checked in the same way against the text before the step (offsets from the '
+              'CURRENT tree), on the freshly parsed document with the very objects that navigation gives (no deep copies).')
     r.exhaustive = cap is None
     return r
 
@@ -353,6 +471,9 @@ def _demo():
 
 def _replay_input(inp):
     T = common.impl()
+    if _is_hist(inp):
+        x = run_hist(inp['doc'], inp['ops'], inp.get('variant'))
+        return None if x is None else x[:2]
     base = T.TexSoup(inp['doc'])
     op = inp['ops'][0]
     kind = inp.get('kind') or op.split(' ')[0]
